@@ -172,7 +172,7 @@ PROPS = {
                  "all control fields, play count, default-image membership, header, per-frame pixels (alphaEq under alpha optimisation), numbering, and the stripped-animation case.",
         "note": "Frame pixel fidelity of recompression = C19/C18 at frame geometry + D1; checked by the oracle. Policies that strip only some animation chunks make the call fail (allowed).",
         "technique": "Lean 4 proof (byte-level round trips, induction over frames) + correspondence + APNG oracle",
-        "rule": "APNGs with 0-3 extra frames, sub-rectangle frames, frame data split over 1-3 fdAT chunks, default image in or out of the animation, all colour types/depths, interlaced or not x options x strip policies",
+        "rule": "APNGs with 0-3 extra frames, sub-rectangle frames, frames of different size cut from one and the same filtered stream and true repeats of a frame, frame data split over 1-3 fdAT chunks, default image in or out of the animation, all colour types/depths, interlaced or not x options x strip policies",
     },
     "C14": {
         "lean": ["OxiModel.Props.C14"],
